@@ -489,6 +489,30 @@ func (r *runner) execute(h *history, blocks []executionclient.BlockLogs, stepBlk
 	if after := observe(w, last.node, ctl); res.inferior == "" && (fmt.Sprint(after.Other) != fmt.Sprint(res.final.Other) || fmt.Sprint(after.KM) != fmt.Sprint(res.final.KM)) {
 		res.inferior = "a refused (inferior) block changed the state"
 	}
+	// ... also when a storage operation fails while the not-newer block is looked at: every
+	// proxied call of the re-delivery gets an error-return fault in turn; the handler must
+	// return an error (the guard's or the storage's) and nothing may change
+	if res.inferior == "" && len(faults) == 0 {
+		b := blocks[len(blocks)-1]
+		for k := 1; k <= 12 && res.inferior == ""; k++ {
+			fc := ctl
+			saved := *fc
+			fc.Off, fc.Fired, fc.Site, fc.Log, fc.At, fc.Mode = false, false, "", nil, k, reg.ErrorReturn
+			_, err := last.node.ProcessBlock(b)
+			fired, site, calls := fc.Fired, fc.Site, len(fc.Log)
+			*fc = saved
+			fc.Off = true
+			if fired && err == nil {
+				res.inferior = fmt.Sprintf("block %d re-delivered after it was processed, %s fails: handler returned nil, want an error", b.BlockNumber, site)
+			}
+			if after := observe(w, last.node, ctl); res.inferior == "" && (fmt.Sprint(after.Other) != fmt.Sprint(res.final.Other) || fmt.Sprint(after.KM) != fmt.Sprint(res.final.KM)) {
+				res.inferior = fmt.Sprintf("block %d re-delivered after it was processed, %s fails: the refused block changed the state", b.BlockNumber, site)
+			}
+			if k > calls {
+				break
+			}
+		}
+	}
 	return res
 }
 
